@@ -5,7 +5,7 @@ import json
 import os
 import sys
 
-MODULES = ["t_common", "t_itersites", "t_adapter"]
+MODULES = ["t_common", "t_itersites", "t_adapter", "t_transformer"]
 
 
 def main(repo="/repo", out="/verif/coq/Gen"):
